@@ -536,3 +536,45 @@ extern "C" void harness_getlastop() {
   if (!fresh) VA(last == (front ? ops[0] : ops[1]));
   verif_reach();
 }
+
+// C10 / C04: CheckSplitOwner (owner search through the 'splits' lists while a PolyTree is built) terminates on EVERY split graph -
+// also on cyclic ones among records whose ring has been merged away (pts == nullptr), which horizontal joins do produce - and when it
+// reports success the owner it installed is a live ring other than the record itself.
+#ifndef CN
+#define CN 3
+#endif
+extern "C" __attribute__((noinline)) bool stub_checkbounds(ClipperBase* s, OutRec* r) { return r->pts != nullptr && nondet_bool(); }
+extern "C" __attribute__((noinline)) bool stub_p1inp2_b(OutPt* a, OutPt* b) { return nondet_bool(); }
+extern "C" void harness_checksplitowner() {
+  Clipper64& c = *new Clipper64();
+  OutRec* o = new OutRec(); o->pts = new OutPt(Point64((int64_t)0, (int64_t)0), o);
+  OutRec* r[CN]; OutRecList* lists[CN]; OutPt* rings[CN];
+  for (int i = 0; i < CN; ++i) { r[i] = new OutRec(); lists[i] = new OutRecList((size_t)2, (OutRec*)nullptr); rings[i] = new OutPt(Point64((int64_t)i, (int64_t)1), r[i]); }
+  for (int i = 0; i < CN; ++i) {
+#ifdef PTSMASK   // which records still have a ring is fixed per obligation (bit i = record i is live): with it symbolic the recursion tree
+                 // has no concrete shape for symbolic execution (no verdict in 900 s even for one record)
+    r[i]->pts = ((PTSMASK >> i) & 1) ? rings[i] : nullptr;
+#else
+    r[i]->pts = nondet_bool() ? rings[i] : nullptr;
+#endif
+    // the split graph is the complete one (every record lists the next two of the cycle r0, r1, .., o): all cycles, the searching record included;
+    // which entries are live is decided by the symbolic pts / splits / mark fields (a symbolic graph shape makes every list loop symbolic: no verdict)
+    for (int k = 1; k <= 2; ++k) { int j = (i + k) % (CN + 1); (*lists[i])[k - 1] = (j == CN ? o : r[j]); }
+#ifdef PTSMASK
+    r[i]->splits = lists[i];
+#else
+    r[i]->splits = nondet_bool() ? lists[i] : nullptr;
+#endif
+#ifdef PTSMASK
+    r[i]->owner = (i > 0) ? r[i - 1] : nullptr;                                                       // a merged-away record points at the ring it went into
+#else
+    r[i]->owner = (i > 0 && nondet_bool()) ? r[nd_int(0, i - 1)] : nullptr;                             // owners are acyclic (C04.c)
+#endif
+    int m = nd_int(0, 2); r[i]->recursive_split = m == 0 ? nullptr : m == 1 ? o : r[(i + 1) % CN];      // marks left by earlier searches
+  }
+  OutRec* owner0 = nondet_bool() ? r[nd_int(0, CN - 1)] : nullptr; o->owner = owner0;
+  bool res = c.CheckSplitOwner(o, lists[0]);
+  if (res) { VA(o->owner && o->owner != o && o->owner->pts != nullptr); bool is_r = false; for (int i = 0; i < CN; ++i) if (o->owner == r[i]) is_r = true; VA(is_r); }
+  else VA(o->owner == owner0);
+  verif_reach();
+}
